@@ -246,9 +246,12 @@ func populate(c *k8s.VerifC17, ctx int, viaSync bool) {
 
 // ---------------------------------------------------------------- Ingress shapes
 
-// descriptor: d<0-3>t<0|1>m<0-3>c<0|1>a<0-2>|<rules>
-//   rules: 0 | 1<http> | 2<http><rule2>;  http: n | p0 | p1<s><k> | p2<s><k><k2>;  rule2: n | <k>
-//   s: 0 no pathType + "/p", 1 ImplementationSpecific + "", 2 Prefix + "/p";  k: 1 service, 2 resource, 3 neither
+// Shape codes (see coq/Shapes/Cases.v): 12 decimal digits 1 d t m c a n h s k k2 r2.
+//   d default backend (0 none, 1 service, 2 resource, 3 neither); t tls; m mergeable type
+//   (0 none, 1 master, 2 minion, 3 garbage); c challenge label; a annotations; n number of
+//   rules; h http of rule 1 (0 nil, 1 no paths, 2 one path, 3 two paths); s pathType shape of
+//   the first path (0 no pathType + "/p", 1 ImplementationSpecific + "", 2 Prefix + "/p");
+//   k, k2 backends of the paths; r2 second rule (0 nil http, 1-3 backend of its one path).
 func backendOf(k byte, svc string) networking.IngressBackend {
 	switch k {
 	case '1':
@@ -272,8 +275,8 @@ func pathOf(s byte, k byte, p string, svc string) networking.HTTPIngressPath {
 }
 
 func ingressOfShape(d string) (*networking.Ingress, error) {
-	bad := fmt.Errorf("bad ingress shape descriptor %q", d)
-	if len(d) < 12 || d[0] != 'd' || d[2] != 't' || d[4] != 'm' || d[6] != 'c' || d[8] != 'a' || d[10] != '|' {
+	bad := fmt.Errorf("bad ingress shape code %q", d)
+	if len(d) != 12 || d[0] != '1' {
 		return nil, bad
 	}
 	cls := "nginx"
@@ -282,11 +285,11 @@ func ingressOfShape(d string) (*networking.Ingress, error) {
 		b := backendOf(d[1], "svc-d")
 		ing.Spec.DefaultBackend = &b
 	}
-	if d[3] == '1' {
+	if d[2] == '1' {
 		ing.Spec.TLS = []networking.IngressTLS{{Hosts: []string{host1}, SecretName: "tls-secret"}}
 	}
 	ann := map[string]string{}
-	switch d[5] {
+	switch d[3] {
 	case '1':
 		ann["nginx.org/mergeable-ingress-type"] = "master"
 	case '2':
@@ -294,10 +297,10 @@ func ingressOfShape(d string) (*networking.Ingress, error) {
 	case '3':
 		ann["nginx.org/mergeable-ingress-type"] = "bogus"
 	}
-	if d[7] == '1' {
+	if d[4] == '1' {
 		ing.Labels = map[string]string{"acme.cert-manager.io/http01-solver": "true"}
 	}
-	switch d[9] {
+	switch d[5] {
 	case '1':
 		ann["nginx.org/use-cluster-ip"] = "true"
 	case '2':
@@ -307,60 +310,29 @@ func ingressOfShape(d string) (*networking.Ingress, error) {
 	if len(ann) > 0 {
 		ing.Annotations = ann // otherwise the map stays nil
 	}
-	r := d[11:]
-	if r == "0" {
+	n, h, sp, k, k2, r2 := d[6], d[7], d[8], d[9], d[10], d[11]
+	if n == '0' {
 		return ing, nil
 	}
-	n := r[0]
-	r = r[1:]
-	http := func() (*networking.HTTPIngressRuleValue, error) {
-		if len(r) == 0 {
-			return nil, bad
-		}
-		if r[0] == 'n' {
-			r = r[1:]
-			return nil, nil
-		}
-		if r[0] != 'p' || len(r) < 2 {
-			return nil, bad
-		}
-		switch r[1] {
-		case '0':
-			r = r[2:]
-			return &networking.HTTPIngressRuleValue{Paths: []networking.HTTPIngressPath{}}, nil
-		case '1':
-			if len(r) < 4 {
-				return nil, bad
-			}
-			v := &networking.HTTPIngressRuleValue{Paths: []networking.HTTPIngressPath{pathOf(r[2], r[3], "/p", "svc-a")}}
-			r = r[4:]
-			return v, nil
-		case '2':
-			if len(r) < 5 {
-				return nil, bad
-			}
-			v := &networking.HTTPIngressRuleValue{Paths: []networking.HTTPIngressPath{pathOf(r[2], r[3], "/p", "svc-a"), pathOf('2', r[4], "/q", "svc-b")}}
-			r = r[5:]
-			return v, nil
-		}
+	var http *networking.HTTPIngressRuleValue
+	switch h {
+	case '0':
+	case '1':
+		http = &networking.HTTPIngressRuleValue{Paths: []networking.HTTPIngressPath{}}
+	case '2':
+		http = &networking.HTTPIngressRuleValue{Paths: []networking.HTTPIngressPath{pathOf(sp, k, "/p", "svc-a")}}
+	case '3':
+		http = &networking.HTTPIngressRuleValue{Paths: []networking.HTTPIngressPath{pathOf(sp, k, "/p", "svc-a"), pathOf('2', k2, "/q", "svc-b")}}
+	default:
 		return nil, bad
 	}
-	h, err := http()
-	if err != nil {
-		return nil, err
-	}
-	ing.Spec.Rules = []networking.IngressRule{{Host: host1, IngressRuleValue: networking.IngressRuleValue{HTTP: h}}}
+	ing.Spec.Rules = []networking.IngressRule{{Host: host1, IngressRuleValue: networking.IngressRuleValue{HTTP: http}}}
 	if n == '2' {
-		if len(r) != 1 {
-			return nil, bad
+		rr := networking.IngressRule{Host: host2}
+		if r2 != '0' {
+			rr.HTTP = &networking.HTTPIngressRuleValue{Paths: []networking.HTTPIngressPath{pathOf('2', r2, "/p", "svc-a")}}
 		}
-		r2 := networking.IngressRule{Host: host2}
-		if r[0] != 'n' {
-			r2.HTTP = &networking.HTTPIngressRuleValue{Paths: []networking.HTTPIngressPath{pathOf('2', r[0], "/p", "svc-a")}}
-		}
-		ing.Spec.Rules = append(ing.Spec.Rules, r2)
-	} else if n != '1' || len(r) != 0 {
-		return nil, bad
+		ing.Spec.Rules = append(ing.Spec.Rules, rr)
 	}
 	return ing, nil
 }
@@ -514,25 +486,23 @@ func runIngShape(p pool, id int, d string, thorough bool) Case {
 // ---------------------------------------------------------------- driver
 
 // allIngDescrs enumerates the Ingress shape space of coq/Shapes/Model.v (all_ing_shapes).
-// The order is irrelevant: every case carries its descriptor, Rocq parses it back, and the
-// driver checks that the number of distinct descriptors equals the length of the Rocq list.
+// The order is irrelevant: every case carries its code, Rocq decodes it, and the driver
+// checks that the number of distinct codes equals the length of the Rocq enumeration.
 func allIngDescrs() []string {
 	ks := []string{"1", "2", "3"}
-	var paths []string
-	paths = append(paths, "p0")
+	https := []string{"0000", "1000"}
 	for _, s := range []string{"0", "1", "2"} {
 		for _, k := range ks {
-			paths = append(paths, "p1"+s+k)
+			https = append(https, "2"+s+k+"0")
 			for _, k2 := range ks {
-				paths = append(paths, "p2"+s+k+k2)
+				https = append(https, "3"+s+k+k2)
 			}
 		}
 	}
-	https := append([]string{"n"}, paths...)
-	rules := []string{"0"}
+	rules := []string{"000000"}
 	for _, h := range https {
-		rules = append(rules, "1"+h)
-		for _, r2 := range []string{"n", "1", "2", "3"} {
+		rules = append(rules, "1"+h+"0")
+		for _, r2 := range []string{"0", "1", "2", "3"} {
 			rules = append(rules, "2"+h+r2)
 		}
 	}
@@ -543,7 +513,7 @@ func allIngDescrs() []string {
 				for _, c := range []string{"0", "1"} {
 					for _, a := range []string{"0", "1", "2"} {
 						for _, r := range rules {
-							out = append(out, "d"+d+"t"+t+"m"+m+"c"+c+"a"+a+"|"+r)
+							out = append(out, "1"+d+t+m+c+a+r)
 						}
 					}
 				}
